@@ -111,7 +111,7 @@ CHECKS["C06"] = dict(
           "request was sent; no frame completes another call; non-pending frames go to callbacks exactly once; at most one command in "
           "flight and it holds the slot; queue always sorted by (priority, arrival) and the head starts; no slot leak; sequence numbers "
           "consecutive mod 256; priority classes pinned over every command name of every version (generated). Tied to the real EZSP + "
-          "zigpy semaphore on a virtual loop by correspondence over exhaustive two-caller scripts and random multi-caller scripts. The send and receive paths (ProtocolHandler.command, __call__, _get_command_priority) are additionally emitted from their Python source on every run and proved to make the model's state changes (c06_source_*)."),
+          "zigpy semaphore on a virtual loop by correspondence over exhaustive two-caller scripts and random multi-caller scripts. The send and receive paths (ProtocolHandler.command, __call__, _get_command_priority) are additionally emitted from their Python source on every run and proved to make the model's state changes (c06_source_*). Runs in which a reply is handled in the very loop iteration in which the command timeout expires are modelled (EzspRace.v) and the results extended to them (c06_race_*)."),
     design_ref="DESIGN.md section 6 C06",
     technique="Coq proof (global invariant over event lists) + model/implementation correspondence in virtual time",
 )
